@@ -1062,15 +1062,11 @@ impl Discovery {
       match self.dcps_subscription.reader.into_iterator() {
         Ok(ds) => ds
           .map(|d| d.map_dispose(|g| g.0)) // map_dispose removes Endpoint_GUID wrapper around GUID
-          .filter(|d|
-              // If a participant was specified, we must match its GUID prefix.
-              match (read_history, d) {
-                (None, _) => true, // Not asked to filter by participant
-                (Some(participant_to_update), Sample::Value(drd)) =>
-                  drd.reader_proxy.remote_reader_guid.prefix == participant_to_update,
-                (Some(participant_to_update), Sample::Dispose(guid)) =>
-                  guid.prefix == participant_to_update,
-              })
+          // Note: Even if a participant was specified, we must not filter by its GUID
+          // prefix here. The iterator above takes the samples out of the reader, so
+          // whatever is filtered away is lost for good: the endpoints of other
+          // participants (or our own) that arrived just before this call would
+          // never be matched.
           .collect(),
         Err(e) => {
           error!("handle_subscription_reader: {e:?}");
@@ -1126,7 +1122,7 @@ impl Discovery {
     } // loop
   }
 
-  pub fn handle_publication_reader(&mut self, read_history: Option<GuidPrefix>) {
+  pub fn handle_publication_reader(&mut self, _read_history: Option<GuidPrefix>) {
     let dwds: Vec<Sample<DiscoveredWriterData, GUID>> =
       match self.dcps_publication.reader.into_iterator() {
         // a lot of cloning here, but we must copy the data out of the
@@ -1134,16 +1130,8 @@ impl Discovery {
         // a reader and thus self
         Ok(ds) => ds
           .map(|d| d.map_dispose(|g| g.0)) // map_dispose removes Endpoint_GUID wrapper around GUID
-          // If a participant was specified, we must match its GUID prefix.
-          .filter(|d| match (read_history, d) {
-            (None, _) => true, // Not asked to filter by participant
-            (Some(participant_to_update), Sample::Value(dwd)) => {
-              dwd.writer_proxy.remote_writer_guid.prefix == participant_to_update
-            }
-            (Some(participant_to_update), Sample::Dispose(guid)) => {
-              guid.prefix == participant_to_update
-            }
-          })
+          // Note: No filtering by participant here, even if one was specified.
+          // See the note in handle_subscription_reader.
           .collect(),
         Err(e) => {
           error!("handle_publication_reader: {e:?}");
